@@ -85,6 +85,7 @@ type BP struct {
 
 // Req is one ConversionReview of a session
 type Req struct {
+	Crd     int    `json:"crd,omitempty"` // kind "multi": the CRD the review is posted for
 	Src     Ver    `json:"src"`
 	Desired Ver    `json:"desired"`
 	NReq    int    `json:"nreq"`
@@ -111,6 +112,21 @@ type Input struct {
 	Kube    [][]GB `json:"kube,omitempty"`
 	Sched   [][]GB `json:"sched,omitempty"`
 	BParams [][]BP `json:"bparams,omitempty"`
+	// multi (kind "multi" / "msearch", multi.go): every declared rule with its CRD; Requests carry their CRD
+	Decls    []Decl  `json:"decls,omitempty"`
+	MQueries []Query `json:"mqueries,omitempty"`
+}
+
+// Decl: one rule of a conversion binding whose crdName is crdNames[Crd]
+type Decl struct {
+	Crd int  `json:"crd"`
+	R   Rule `json:"r"`
+}
+
+// Query: one FindConversionChain(crdNames[Crd], Q) of a kind "msearch" case
+type Query struct {
+	Crd int  `json:"crd"`
+	Q   Rule `json:"q"`
 }
 
 type Obj struct {
@@ -239,6 +255,16 @@ func fromGoRule(r conversion.Rule) Rule {
 }
 
 const crdName = "crontabs.stable.example.com"
+
+// the CRDs of the multi-CRD cases (C15_Corr.crd_text); one group, coinciding version names
+var crdNames = []string{crdName, "backups.stable.example.com", "reports.stable.example.com", "widgets.stable.example.com"}
+
+func crdNameOf(c int) string {
+	if c >= 0 && c < len(crdNames) {
+		return crdNames[c]
+	}
+	return crdNames[len(crdNames)-1]
+}
 
 // ---------------------------------------------------------------- Run: search
 
@@ -462,7 +488,8 @@ type rig struct {
 	handler *conversion.WebhookHandler
 	state   string
 	tmp     string
-	reg     map[Rule]registrar
+	reg     map[regKey]registrar
+	cur     int            // the CRD (index into crdNames) the next review is posted for
 	hookOf  map[string]int // hook file name -> hook number
 	runs    int            // hook executions so far (the stubs number their runs globally)
 	lastEnd float64        // when the latest hook execution ended (unix seconds), 0 = none yet
@@ -509,7 +536,13 @@ func readStamp(path string) float64 {
 }
 
 // convBinding: one kubernetesCustomResourceConversion binding of the generated configuration
+type regKey struct {
+	crd int
+	r   Rule
+}
+
 type convBinding struct {
+	Crd       int
 	Hook, Idx int
 	Name      string
 	Rules     []Rule
@@ -517,17 +550,29 @@ type convBinding struct {
 
 // layout: rule j is registered by hook j%nh, in bindings of up to two rules each
 func layout(rules []Rule, nh int) [][]convBinding {
+	decls := make([]Decl, len(rules))
+	for j, r := range rules {
+		decls[j] = Decl{0, r}
+	}
+	return layoutM(decls, nh)
+}
+
+// layoutM: the j-th rule declared for CRD c is registered by hook (j+c)%nh, in bindings (one crdName each) of up
+// to two rules; with one CRD this is layout()
+func layoutM(decls []Decl, nh int) [][]convBinding {
 	if nh < 1 {
 		nh = 1
 	}
 	per := make([][]convBinding, nh)
-	for j, r := range rules {
-		h := j % nh
+	within := map[int]int{}
+	for _, d := range decls {
+		h := (within[d.Crd] + d.Crd) % nh
+		within[d.Crd]++
 		bs := per[h]
-		if len(bs) == 0 || len(bs[len(bs)-1].Rules) >= 2 {
-			bs = append(bs, convBinding{Hook: h, Idx: len(bs), Name: fmt.Sprintf("b%d-%d", h, len(bs))})
+		if len(bs) == 0 || len(bs[len(bs)-1].Rules) >= 2 || bs[len(bs)-1].Crd != d.Crd {
+			bs = append(bs, convBinding{Crd: d.Crd, Hook: h, Idx: len(bs), Name: fmt.Sprintf("b%d-%d", h, len(bs))})
 		}
-		bs[len(bs)-1].Rules = append(bs[len(bs)-1].Rules, r)
+		bs[len(bs)-1].Rules = append(bs[len(bs)-1].Rules, d.R)
 		per[h] = bs
 	}
 	return per
@@ -577,6 +622,15 @@ func convBindingNumber(name string) int { // "b<h>-<i>" -> 100*h + i
 // extra: the params of an Input of kind "params" (nil otherwise): other bindings of the hooks and the further
 // parameters of the conversion bindings
 func newRig(rules []Rule, nh int, settings []*HookSettings, extra *Input) (rg *rig, err error) {
+	decls := make([]Decl, len(rules))
+	for j, r := range rules {
+		decls[j] = Decl{0, r}
+	}
+	return newRigM(decls, nh, settings, extra)
+}
+
+// newRigM: the same for rules declared for several CRDs (bindings with different crdName in one hook or several)
+func newRigM(decls []Decl, nh int, settings []*HookSettings, extra *Input) (rg *rig, err error) {
 	root, err := os.MkdirTemp("", "c15-")
 	if err != nil {
 		return nil, err
@@ -602,7 +656,7 @@ func newRig(rules []Rule, nh int, settings []*HookSettings, extra *Input) (rg *r
 	if nh < 1 {
 		nh = 1
 	}
-	rg = &rig{state: state, tmp: tmp, reg: map[Rule]registrar{}, hookOf: map[string]int{}, buckets: make([]*simBucket, nh)}
+	rg = &rig{state: state, tmp: tmp, reg: map[regKey]registrar{}, hookOf: map[string]int{}, buckets: make([]*simBucket, nh)}
 	type binding struct {
 		Name                 string            `json:"name"`
 		Group                string            `json:"group,omitempty"`
@@ -611,9 +665,9 @@ func newRig(rules []Rule, nh int, settings []*HookSettings, extra *Input) (rg *r
 		Conversions          []conversion.Rule `json:"conversions"`
 	}
 	perHook := make([][]binding, nh)
-	for h, cbs := range layout(rules, nh) {
+	for h, cbs := range layoutM(decls, nh) {
 		for _, cb := range cbs {
-			b := binding{Name: cb.Name, CrdName: crdName}
+			b := binding{Name: cb.Name, CrdName: crdNameOf(cb.Crd)}
 			p := extra.bp(h, cb.Idx)
 			if p.Group > 0 {
 				b.Group = groupName(p.Group)
@@ -623,7 +677,7 @@ func newRig(rules []Rule, nh int, settings []*HookSettings, extra *Input) (rg *r
 			}
 			for _, r := range cb.Rules {
 				b.Conversions = append(b.Conversions, toGoRule(r))
-				rg.reg[r] = registrar{fmt.Sprintf("h%02d.sh", h), cb.Name}
+				rg.reg[regKey{cb.Crd, r}] = registrar{fmt.Sprintf("h%02d.sh", h), cb.Name}
 			}
 			perHook[h] = append(perHook[h], b)
 		}
@@ -718,6 +772,7 @@ func newRig(rules []Rule, nh int, settings []*HookSettings, extra *Input) (rg *r
 func (rg *rig) serve(src, desired Ver, nreq int, plan []Step) (o ReqObs) {
 	// the chain the hook manager answers for this request (also fills its cache, so that the
 	// handler's own call is answered from the cache)
+	crdName := crdNameOf(rg.cur)
 	chain := rg.op.HookManager.FindConversionChain(crdName, conversion.Rule{FromVersion: src.String(), ToVersion: desired.String()})
 	o.ChainFound = len(chain) > 0
 	for _, r := range chain {
@@ -817,7 +872,7 @@ func (rg *rig) serve(src, desired Ver, nreq int, plan []Step) (o ReqObs) {
 			}
 			inv.Objs = parseObjs(raws)
 			// "a request is handed to the hook and binding that registered that rule"
-			if want, ok := rg.reg[inv.Rule]; !ok || want.hook != inv.Who || want.binding != ctxs[0].Binding {
+			if want, ok := rg.reg[regKey{rg.cur, inv.Rule}]; !ok || want.hook != inv.Who || want.binding != ctxs[0].Binding {
 				inv.Who += fmt.Sprintf(" (ran as %s/%s, registrar is %s/%s)", inv.Who, ctxs[0].Binding, want.hook, want.binding)
 				inv.Rule = Rule{Ver{0, bogusShort}, inv.Rule.To}
 			}
@@ -944,6 +999,10 @@ func Run(in Input) Obs {
 		return runSession(in)
 	case "params":
 		return runParams(in)
+	case "multi":
+		return runMulti(in)
+	case "msearch":
+		return runMSearch(in)
 	}
 	return runSearch(in)
 }
@@ -1181,6 +1240,12 @@ func Render(in Input, obs *Obs, crash string) core.Case {
 	}
 	if in.Kind == "params" {
 		return renderParams(in, obs, c)
+	}
+	if in.Kind == "multi" {
+		return renderMulti(in, obs, c)
+	}
+	if in.Kind == "msearch" {
+		return renderMSearch(in, obs, c)
 	}
 	if in.Kind == "enc" {
 		return renderEnc(in, obs, c)
@@ -1863,7 +1928,9 @@ func oks(n int) []Step {
 }
 
 // Corpus: witnesses of the repaired defects F4a-F4d and past failures; runs first.
-func Corpus() []Input { return append(append(corpusBase(), corpusParams()...), corpusEnc()...) }
+func Corpus() []Input {
+	return append(append(append(corpusBase(), corpusParams()...), corpusEnc()...), corpusMulti()...)
+}
 
 func corpusBase() []Input {
 	lin := []Rule{rl(0, 3), rl(3, 5), rl(5, 8)} // v1 -> v2 -> v3 -> v4
@@ -2125,11 +2192,25 @@ func Gen(r *core.Rng, tier string) ([]core.In[Input], bool) {
 	for i := 0; i < nEnc; i++ {
 		add(g.encCase(), "enc")
 	}
+	// several CRDs served by one operator (multi.go).  Generated last: the other streams keep their inputs.
+	g.msearchSystematic(func(in Input) { add(in, "msearch-systematic") })
+	nMSearch, nMulti := 150, 48
+	if tier == "thorough" {
+		nMSearch, nMulti = 6000, 900
+	} else if tier == "search" {
+		nMSearch, nMulti = 800, 160
+	}
+	for i := 0; i < nMSearch; i++ {
+		add(g.msearchCase(), "msearch")
+	}
+	for i := 0; i < nMulti; i++ {
+		add(g.multiCase(), "multi")
+	}
 	return ins, false
 }
 
 var Driver = core.Driver[Input, Obs]{
 	Spec: core.Spec{Property: "C15", Imports: []string{"C15_Model", "C15_Spec", "C15_EncModel", "C15_Corr"}, Corr: "C15_Corr", Triggers: nil, ShrinkKey: "rules",
-		Rule: "search cases: a generated rule graph (chains, forks after k steps, diamonds, cycles, random; near-miss names v1/v10/v1beta1/v1alpha1/v2/v2beta1/v20; spelt short, with group, or mixed) and all (from,to) pairs queried through the real ChainStorage.FindConversionChain on a fresh storage per query and on a shared one; every returned chain is judged by Coq (valid_chain), every nil by reachable, found/not-found is compared with the model. handler cases: real hooks (bash stubs) + real hook.Manager + real conversionEventHandler + real conversion.WebhookHandler router, one ConversionReview, scripted outcome per hook run (ok, exit 1, bad JSON, empty, failedMessage with/without objects, failedMessage \"\"/null/not a string, failedMessage of a hook that exits 1, fewer/more objects, wrong/mixed versions, early jump, no objects); hook runs (registrar, rule, objects received) and the answer compared with the model: result.status, the converted objects, and result.message BYTE FOR BYTE (no text is classified by the harness; the model C15_Model.serve produces the text of every message, the Spec demands that a failing hook's failedMessage is the answer's message). failedMessage texts are free text by class (tags msg:<class>, msghas:<feature>, msgspell:<JSON spelling in the response file: std|raw|uall|mixed>): plain, percent (%d %s %v %w %% %[1]d, trailing %, %2F ...), quote (quotes, backslashes, text that reads like an escape), newline (newlines, tabs, control bytes incl. NUL), unicode (Cyrillic, CJK, astral, U+2028, BOM, U+FFFD), space (leading/trailing blanks, a lone blank), html (< > &), lookalike (texts that read like the operator's own messages, null, {}), long (150-300 bytes). Streams: corpus (witnesses of F4a-F4d, message witnesses, sessions with settings), random, two-groups (informational, outside the domain), handler (half of the faults concern the failedMessage), messages (every message class in every JSON spelling on a 1-3 step chain), exhaustive (thorough: every rule set of <=5 rules over the 4 versions v1,v10,v1beta1,v2 incl. self-rules, all 16 pairs, fresh and shared, plus one re-spelling). session cases (kind:session): the same real stack, but hooks with `settings` (executionMinInterval 5-60 ms, a few of 1-2 s; executionBurst default/1/2/3; also interval 0 / negative = no limit, and hooks without settings beside limited ones), rules on a line of 1-3 steps (+ way back / side branch) registered by 1-3 hooks so that one hook serves several steps of a chain, and 1-3 ConversionReviews posted back to back to ONE operator (shared limiters and chain cache); per request the chain, the hook runs and the answer are compared with C15_Model.serve_session (every step through the hook-run task and RateLimitWait) and judged by P_search / P_handler: a rate-limited hook is delayed, never skipped. No clock reading enters the comparison (C15_session_state_irrelevant), so there is no timing tolerance; timing only decides what a case exercises: tag throttled-runs:<n> = hook runs that found their bucket empty (estimated from the stubs' timestamps), steps-by-a-hook-that-already-served-the-chain:<n>, interval:<class>, burst:<b>. A case lasts as long as its waits (generator budget 320 ms, slow cases 1-2 s); sessions are spread evenly over the workers. Informational stream session-never-runnable: a negative burst with a positive interval allows no execution of the hook at all (outside C15_Spec.settings_in_domain: compared with the model, not judged by P_handler). params cases (kind:params): the same real stack, one ConversionReview, but the conversion bindings carry the further documented binding parameters - `group` (a group that names nothing, or one that has `kubernetes` / `schedule` bindings of the hook as members) and `includeSnapshotsFrom` - and the hooks have `kubernetes` / `schedule` bindings beside them (which never fire: no cluster, a crontab for 30 February); observed per hook execution: WHICH hook ran and WHAT IT READ in $BINDING_CONTEXT_PATH field by field (binding, type, keys of snapshots, groupName, fromVersion, toVersion, review.request.objects; the harness expects nothing about the type), and the answer; compared with C15_BindModel.serve_params (configuration loading with the group merge, links, HandleEvent, UpdateSnapshots, MapV1 statement by statement; snapshot keys as a set) and judged by C15_BindSpec.P_params: every executed hook read the conversion request of its step (type Conversion, the step's rule, the previous output) and is a hook that declared the rule. Streams: params-positions = every non-empty choice of bindings with parameters along a line of 1-4 steps served by one hook per step or by one hook for all steps (33 choices; variants group / group with members / includeSnapshotsFrom / both, quick: one variant per choice, thorough: all four), a fault in a quarter of them; params = random rule graphs and requests as in the handler stream with random parameters per binding (group 55%, includeSnapshotsFrom 35%) and 0-3 kubernetes / 0-1 schedule bindings per hook; corpus: a two-hook chain with mixed spellings whose second binding has a group, a grouped binding with members and an include, one hook with two grouped bindings over three steps, a grouped step that fails with its own message. Tags step-with-group:<only|first|middle|last>, step-with-includeSnapshotsFrom:<pos>, step-without-params:<pos>, ctx-type:<type read>, ctx-snapshots:<n keys|absent>, executed-steps-with-params:<n>. enc cases (kind:enc): the handler stack again, one ConversionReview, but one or two steps of the chain answer a list of elements each in its own ENCODING (the stubs write raw JSON): an object whose apiVersion is the desired / the source / the step's own / another version, the empty string, a malformed text (trailing or leading '/', leading or trailing blank, upper case), missing, null, not a string (number, bool, object, array), the element null, an element that is no object (number, string, array, bool) - in every position (first, after an element at the desired version, middle, last), mixed with elements at the desired or at an intermediate version, with the right or a wrong count; what the next hook received and the answer's convertedObjects are classified by the harness from the raw JSON the same way; compared with C15_EncModel.serve_e (ExtractAPIVersions: one fresh decoding per element) and judged by C15_EncSpec.P_enc: an element without apiVersion is not at the desired version - such a list neither ends the chain early nor is answered Success. Streams: enc-positions = every encoding x position x (chain length, step) systematically (quick: 1-2 step chains, the first step, lists of 2-3; thorough: 1-3 steps, every step, lists of 1-3, the rest at the desired or at the step's own version); enc = random graphs and requests as in the handler stream with 1-2 encoded steps. Tags enc:<encoding>, encpos:<first|after-desired|after-other|last...>, enc-rest:<desired|other|mixed>. non-trivial = enc: chain found and an executed step answered an element that is not a well-formed object; search: >=2 rules and a returned chain of >=2 steps; handler: chain found and at least one hook ran; session: every chain found and at least two hook runs; params: chain found and at least one executed step served by a binding with group or includeSnapshotsFrom. distinct = distinct input text"},
+		Rule: "search cases: a generated rule graph (chains, forks after k steps, diamonds, cycles, random; near-miss names v1/v10/v1beta1/v1alpha1/v2/v2beta1/v20; spelt short, with group, or mixed) and all (from,to) pairs queried through the real ChainStorage.FindConversionChain on a fresh storage per query and on a shared one; every returned chain is judged by Coq (valid_chain), every nil by reachable, found/not-found is compared with the model. handler cases: real hooks (bash stubs) + real hook.Manager + real conversionEventHandler + real conversion.WebhookHandler router, one ConversionReview, scripted outcome per hook run (ok, exit 1, bad JSON, empty, failedMessage with/without objects, failedMessage \"\"/null/not a string, failedMessage of a hook that exits 1, fewer/more objects, wrong/mixed versions, early jump, no objects); hook runs (registrar, rule, objects received) and the answer compared with the model: result.status, the converted objects, and result.message BYTE FOR BYTE (no text is classified by the harness; the model C15_Model.serve produces the text of every message, the Spec demands that a failing hook's failedMessage is the answer's message). failedMessage texts are free text by class (tags msg:<class>, msghas:<feature>, msgspell:<JSON spelling in the response file: std|raw|uall|mixed>): plain, percent (%d %s %v %w %% %[1]d, trailing %, %2F ...), quote (quotes, backslashes, text that reads like an escape), newline (newlines, tabs, control bytes incl. NUL), unicode (Cyrillic, CJK, astral, U+2028, BOM, U+FFFD), space (leading/trailing blanks, a lone blank), html (< > &), lookalike (texts that read like the operator's own messages, null, {}), long (150-300 bytes). Streams: corpus (witnesses of F4a-F4d, message witnesses, sessions with settings), random, two-groups (informational, outside the domain), handler (half of the faults concern the failedMessage), messages (every message class in every JSON spelling on a 1-3 step chain), exhaustive (thorough: every rule set of <=5 rules over the 4 versions v1,v10,v1beta1,v2 incl. self-rules, all 16 pairs, fresh and shared, plus one re-spelling). session cases (kind:session): the same real stack, but hooks with `settings` (executionMinInterval 5-60 ms, a few of 1-2 s; executionBurst default/1/2/3; also interval 0 / negative = no limit, and hooks without settings beside limited ones), rules on a line of 1-3 steps (+ way back / side branch) registered by 1-3 hooks so that one hook serves several steps of a chain, and 1-3 ConversionReviews posted back to back to ONE operator (shared limiters and chain cache); per request the chain, the hook runs and the answer are compared with C15_Model.serve_session (every step through the hook-run task and RateLimitWait) and judged by P_search / P_handler: a rate-limited hook is delayed, never skipped. No clock reading enters the comparison (C15_session_state_irrelevant), so there is no timing tolerance; timing only decides what a case exercises: tag throttled-runs:<n> = hook runs that found their bucket empty (estimated from the stubs' timestamps), steps-by-a-hook-that-already-served-the-chain:<n>, interval:<class>, burst:<b>. A case lasts as long as its waits (generator budget 320 ms, slow cases 1-2 s); sessions are spread evenly over the workers. Informational stream session-never-runnable: a negative burst with a positive interval allows no execution of the hook at all (outside C15_Spec.settings_in_domain: compared with the model, not judged by P_handler). params cases (kind:params): the same real stack, one ConversionReview, but the conversion bindings carry the further documented binding parameters - `group` (a group that names nothing, or one that has `kubernetes` / `schedule` bindings of the hook as members) and `includeSnapshotsFrom` - and the hooks have `kubernetes` / `schedule` bindings beside them (which never fire: no cluster, a crontab for 30 February); observed per hook execution: WHICH hook ran and WHAT IT READ in $BINDING_CONTEXT_PATH field by field (binding, type, keys of snapshots, groupName, fromVersion, toVersion, review.request.objects; the harness expects nothing about the type), and the answer; compared with C15_BindModel.serve_params (configuration loading with the group merge, links, HandleEvent, UpdateSnapshots, MapV1 statement by statement; snapshot keys as a set) and judged by C15_BindSpec.P_params: every executed hook read the conversion request of its step (type Conversion, the step's rule, the previous output) and is a hook that declared the rule. Streams: params-positions = every non-empty choice of bindings with parameters along a line of 1-4 steps served by one hook per step or by one hook for all steps (33 choices; variants group / group with members / includeSnapshotsFrom / both, quick: one variant per choice, thorough: all four), a fault in a quarter of them; params = random rule graphs and requests as in the handler stream with random parameters per binding (group 55%, includeSnapshotsFrom 35%) and 0-3 kubernetes / 0-1 schedule bindings per hook; corpus: a two-hook chain with mixed spellings whose second binding has a group, a grouped binding with members and an include, one hook with two grouped bindings over three steps, a grouped step that fails with its own message. Tags step-with-group:<only|first|middle|last>, step-with-includeSnapshotsFrom:<pos>, step-without-params:<pos>, ctx-type:<type read>, ctx-snapshots:<n keys|absent>, executed-steps-with-params:<n>. enc cases (kind:enc): the handler stack again, one ConversionReview, but one or two steps of the chain answer a list of elements each in its own ENCODING (the stubs write raw JSON): an object whose apiVersion is the desired / the source / the step's own / another version, the empty string, a malformed text (trailing or leading '/', leading or trailing blank, upper case), missing, null, not a string (number, bool, object, array), the element null, an element that is no object (number, string, array, bool) - in every position (first, after an element at the desired version, middle, last), mixed with elements at the desired or at an intermediate version, with the right or a wrong count; what the next hook received and the answer's convertedObjects are classified by the harness from the raw JSON the same way; compared with C15_EncModel.serve_e (ExtractAPIVersions: one fresh decoding per element) and judged by C15_EncSpec.P_enc: an element without apiVersion is not at the desired version - such a list neither ends the chain early nor is answered Success. Streams: enc-positions = every encoding x position x (chain length, step) systematically (quick: 1-2 step chains, the first step, lists of 2-3; thorough: 1-3 steps, every step, lists of 1-3, the rest at the desired or at the step's own version); enc = random graphs and requests as in the handler stream with 1-2 encoded steps. Tags enc:<encoding>, encpos:<first|after-desired|after-other|last...>, enc-rest:<desired|other|mixed>. non-trivial = enc: chain found and an executed step answered an element that is not a well-formed object; search: >=2 rules and a returned chain of >=2 steps; handler: chain found and at least one hook ran; session: every chain found and at least two hook runs; params: chain found and at least one executed step served by a binding with group or includeSnapshotsFrom.  multi cases (kind:multi): SEVERAL CRDs served by one operator - 2-3 CRDs (crontabs/backups/reports/widgets.stable.example.com) whose conversion bindings (in one hook or spread over 2-3 hooks; a hook may hold bindings for several CRDs, the same rule may be declared for two CRDs by different hooks) use the SAME version names (v1alpha1, v1beta1, v1, v2, v3; short / with group / mixed per CRD) and declare DIFFERENT rule graphs (templates line, direct, line+direct, reverse-only, other-route, first-step-only, both-ways, long-way, diamond, or random edges): real hooks, the real hook.Manager with its one ChainStorage and the per-CRD links of the hooks' controllers, the real handler; 3-6 ConversionReviews posted to /<crd name> alternating between the CRDs (A B A B, A B B A, A A B B, random), mostly the same (from,to) pair for every CRD, other pairs in between, faults in a fifth of the requests; per request the chain FindConversionChain(crd, pair) answered, the hook runs (recorded under the rule only if hook and binding are the ones that declared it for THAT CRD) and the answer; compared with C15_MultiModel (find_session on the storage built from the declarations, serve_multi with the request's own CRD's links) and judged per request by C15_MultiSpec.P_request: P_search against the rules declared for the request's CRD and P_handler. msearch cases (kind:msearch): the real ChainStorage alone filled per CRD as UpdateConversionChains does, 2-4 CRDs (and queries for a CRD it does not know), up to 48 FindConversionChain(crd, pair) calls alternating between the CRDs; streams msearch-systematic (every ordered pair of different templates as CRD A and B: the pair v1alpha1->v1 asked A,B,A,B, then every pair for B and A) and msearch (random); judged by all_P_multi, found/not found compared. Tags pairs-asked-for-several-crds, same-pair-other-route, same-pair-chain-for-one-none-for-other (from the observed answers), crd-switches, crds, same-rule-declared-by-different-hooks. non-trivial = multi: some pair was asked for two CRDs with different outcomes (another chain, or a chain for one and none for the other) and at least two hooks ran; msearch: the same with a chain of >= 2 steps. distinct = distinct input text"},
 	Gen: Gen, Run: Run, Render: Render, PerShard: 1000, Workers: 8, CaseTimout: 30 * time.Second,
 }
